@@ -49,6 +49,10 @@ func prewriteMutation(db *NoKV.DB, reader *Reader, req *pb.PrewriteRequest, mut 
 	if lock != nil && lock.Ts != req.StartVersion {
 		return keyErrorLocked(key, lock)
 	}
+	if lock != nil {
+		// Repeated prewrite of an already locked key: keep the lock (and a pushed MinCommitTs) as is.
+		return nil
+	}
 	if write, commitTs, err := reader.MostRecentWrite(key); err != nil {
 		return keyErrorRetryable(err)
 	} else if write != nil && commitTs >= req.StartVersion {
